@@ -725,6 +725,8 @@ def gen_tree(rng, depth):
 def gen_dir(rng, depth):
     return {"t": "d", "ch": gen_tree(rng, depth + 1), "explicit": rng.random() < 0.6,
             "hashed": rng.random() < 0.75,
+            # what an UNHASHED directory entry carries: None, or a falsy HashInfo OBJECT (HashInfo() / HashInfo("md5", None))
+            "nohash_obj": rng.choice([None, None, None, [None, None], ["md5", None], ["md5", ""]]),
             "meta": rng.choice([{}, {}, {"nfiles": 2}, {"size": 3}, {"isexec": True}])}
 
 
@@ -788,7 +790,7 @@ def flatten(tree, prefix, out):
             pos = len(out)
             sub = flatten(node["ch"], k, out)
             if node["explicit"]:
-                dh = None
+                dh = node.get("nohash_obj")
                 if node["hashed"]:
                     dig = hashlib.md5(repr(sorted(sub)).encode()).hexdigest()[:8]  # noqa: S324
                     dh = ["md5", dig + ".dir"]
@@ -1210,7 +1212,7 @@ def gen_lazy_roots(ctx, bundle):
 # --------------------------------------------------------------------------------------
 # input-space audit (tools/COVERAGE_AUDIT.md): fixed cases that run in EVERY run, judged by the same oracle
 
-AUDIT_CODES = [0, 1, 2, 3, 4, 6, 8, 12, 18, 33, 34, 72, 13]
+AUDIT_CODES = [0, 1, 2, 3, 4, 6, 8, 12, 18, 32, 33, 34, 36, 72, 13]
 NFC, NFD = "café.txt", "café.txt"
 ODD_NAMES = ["we\\ird.txt", "a b", ".hid", "Ж", "漢", "\U0001f600", NFC, NFD, "x.dir", "imgs_raw", "imgs.bak",
              "q", "L" * 200, "data"]
@@ -1293,6 +1295,21 @@ def audit_pairs():
             [["m", "alg"], {"size": 1}, ["sha256", "h1"]]]
     out.append((["entry:meta-field-absent-zero-value", "entry:eq-false-fields", "entry:obj_name", "entry:loaded-flag",
                  "entry:hash-absent-vs-present", "entry:same-value-two-algorithms"], old, new))
+    # hash_info in {None, HashInfo(), HashInfo("md5", None), HashInfo("md5", ""), HashInfo("md5", v)} on directory AND
+    # file entries, with changes below the directories (a falsy HashInfo object is "no hash" wherever truthiness is tested:
+    # shallow skip, _diff_hash_info, rename detection, hash_only)
+    old, new = [], []
+    for i, hobj in enumerate([None, [None, None], ["md5", None], ["md5", ""]]):
+        d = "hd%d" % i
+        old += [[[d], D, hobj], [[d, "same"], *_f(1, "h1")], [[d, "mod"], *_f(1, "h1")], [[d, "del"], *_f(1, "h2")],
+                [[d, "sub"], D, hobj], [[d, "sub", "deep"], *_f(1, "h3")]]
+        new += [[[d], D, hobj], [[d, "same"], *_f(1, "h1")], [[d, "mod"], *_f(1, "h4")], [[d, "add"], *_f(1, "h2")],
+                [[d, "sub"], D, [None, None] if hobj is None else None], [[d, "sub", "deep"], *_f(2, "h3")]]
+        old += [[["hf", "f%d" % i], {"size": 1}, hobj], [["hf", "g%d" % i], {"size": 1}, hobj], [["hf", "gone%d" % i], {"size": 1}, hobj]]
+        new += [[["hf", "f%d" % i], {"size": 1}, ["md5", "h5"]], [["hf", "g%d" % i], {"size": 1}, [None, None]],
+                [["hf", "new%d" % i], {"size": 1}, hobj]]
+    out.append((["entry:falsy-hashinfo-object-on-dir", "entry:falsy-hashinfo-object-on-file"], old, new))
+    out.append((["entry:falsy-hashinfo-object-on-dir", "side:None"], copy.deepcopy(old), None))
     # an unchanged hashed directory (shortcut) next to changed ones, hashed inside hashed
     sub = [("x", "h1")]
     old = [[["u"], D, _dirh([("s/x", "h1"), ("y", "h2")])], [["u", "s"], D, _dirh(sub)], [["u", "s", "x"], *_f(1, "h1")],
